@@ -323,97 +323,207 @@ def lean_file(pid, jname, ctx, sizes, dispatch):
 
 # --- Rust output -------------------------------------------------------------------------------------
 
+# The dispatch table (value printing, construction from values) is generated from the *Rust
+# definitions* of the generated crates — struct fields with the types they really have, enum
+# variants as they really are — and never from what the description says they should be.  A codec
+# that went stale against its description therefore still compiles into the harness; the
+# difference shows up as behaviour (oracle / correspondence) with a concrete replay.
+
+def split_fields(body):
+    """`pub a: T, pub b: U<..>, ...` -> [(name, type)] (commas inside <> [] () do not split)"""
+    out, depth, cur = [], 0, ""
+    for ch in body:
+        if ch in "<[(":
+            depth += 1
+        elif ch in ">])":
+            depth -= 1
+        if ch == "," and depth == 0:
+            out.append(cur)
+            cur = ""
+        else:
+            cur += ch
+    out.append(cur)
+    res = []
+    for f in out:
+        f = f.strip()
+        if not f:
+            continue
+        m = re.match(r"pub\s+(\w+)\s*:\s*(.+)$", f, re.S)
+        if m:
+            res.append((m.group(1), re.sub(r"\s+", " ", m.group(2).strip())))
+    return res
+
+
+def parse_structs(src):
+    """struct name -> [(field, type)] for every `pub struct` of a module"""
+    out = {}
+    for m in re.finditer(r"pub struct (\w+)(?:<'a>)?\s*(;|\{)", src):
+        name = m.group(1)
+        if m.group(2) == ";":
+            out[name] = []
+            continue
+        i = m.end() - 1
+        depth, j = 0, i
+        while j < len(src):
+            if src[j] == "{":
+                depth += 1
+            elif src[j] == "}":
+                depth -= 1
+                if depth == 0:
+                    break
+            j += 1
+        out[name] = split_fields(src[i + 1:j])
+    return out
+
+
+def parse_enum(src, name, rel):
+    m = re.search(r"pub enum %s(?:<'a>)?\s*\{(.*?)\n\}" % name, src, re.S)
+    if not m:
+        err("%s: enum %s not found" % (rel, name))
+    return re.findall(r"(\w+)\((\w+)(?:<'a>)?\)", m.group(1))
+
+
+def norm(n):
+    return n.replace("_", "").lower()
+
+
 class RustGen:
-    def __init__(self):
+    def __init__(self, structs_here, obj_structs, modpath):
         self.n = 0
+        self.here = structs_here      # structs of the module the codec lives in
+        self.objs = obj_structs       # structs of snap_obj.rs
+        self.modpath = modpath        # e.g. k::msg::system
 
     def fresh(self, p):
         self.n += 1
         return "%s%d" % (p, self.n)
 
-    # print the value of Rust expression `e` (by value, Copy) of member type t into `o`
-    def pr(self, t, e):
-        k = t[0]
-        if k in ("int32", "flags", "intstr"):
+    # ---- by Rust type: print the (Copy) expression e into `o` -------------------------------
+    def pr(self, ty, e, in_obj_module):
+        ty = ty.strip()
+        if ty in ("i32", "u16", "u8"):
             return "pi(o, (%s) as i64);" % e
-        if k in ("tick", "tune"):
-            return "pi(o, (%s).0 as i64);" % e
-        if k == "enum":
-            return "pi(o, (%s).to_i32() as i64);" % e
-        if k == "boolean":
+        if ty == "bool":
             return "pb(o, %s);" % e
-        if k in ("string", "data", "rest"):
+        if re.fullmatch(r"&'a \[u8\]", ty):
             return "px(o, %s);" % e
-        if k == "raw":
-            return "px(o, &(%s).0);" % e if t[2] == "sha256" else "px(o, (%s).as_bytes());" % e
-        if k in ("be16", "u8"):
-            return "pi(o, (%s) as i64);" % e
-        if k in ("addrs", "clients"):
+        if re.fullmatch(r"&'a \[AddrPacked\]", ty) or re.fullmatch(r"ClientsData<'a>", ty):
             return "px(o, (%s).as_bytes());" % e
-        if k == "twstr":
-            v = self.fresh("e")
-            return "o.push('['); for (k_, %s) in (%s).iter().enumerate() { if k_ > 0 { o.push(','); } pi(o, *%s as i64); } o.push(']');" % (v, e, v)
-        if k == "opt":
+        if ty in ("Uuid", "uuid::Uuid"):
+            return "px(o, (%s).as_bytes());" % e
+        if ty == "Sha256":
+            return "px(o, &(%s).0);" % e
+        if ty in ("crate::snap_obj::Tick", "Tick", "TuneParam"):
+            return "pi(o, (%s).0 as i64);" % e
+        m = re.fullmatch(r"enums::(\w+)", ty)
+        if m:
+            return "pi(o, (%s).to_i32() as i64);" % e
+        m = re.fullmatch(r"Option<(.+)>", ty)
+        if m:
             v = self.fresh("v")
-            return "match %s { None => o.push('n'), Some(%s) => { o.push_str(\"s(\"); %s o.push(')'); } }" % (e, v, self.pr(t[1], v))
-        if k == "arr":
+            return "match %s { None => o.push('n'), Some(%s) => { o.push_str(\"s(\"); %s o.push(')'); } }" % (e, v, self.pr(m.group(1), v, in_obj_module))
+        m = re.fullmatch(r"\[(.+); (\d+)\]", ty)
+        if m:
             v = self.fresh("e")
-            return "o.push('['); for (k_, %s) in (%s).iter().enumerate() { if k_ > 0 { o.push(','); } %s } o.push(']');" % (v, e, self.pr(t[2], "(*%s)" % v))
-        if k == "obj":
+            return "o.push('['); for (k_, %s) in (%s).iter().enumerate() { if k_ > 0 { o.push(','); } %s } o.push(']');" % (v, e, self.pr(m.group(1), "(*%s)" % v, in_obj_module))
+        m = re.fullmatch(r"crate::snap_obj::(\w+)", ty)
+        if m and m.group(1) in self.objs:
             v = self.fresh("m")
-            return "{ let %s = %s; %s }" % (v, e, self.pr_fields([("." + f, x) for f, x in t[2]], v))
-        raise AssertionError(k)
+            return "{ let %s = %s; o.push('['); %s o.push(']'); }" % (v, e, self.pr_fields(self.objs[m.group(1)], v, True, self.objs))
+        return None
 
-    def pr_fields(self, fields, m):
-        parts = ["o.push('[');"]
-        for i, (path, t) in enumerate(fields):
-            if i:
-                parts.append("o.push(',');")
-            parts.append(self.pr(t, m + path))
-        parts.append("o.push(']');")
+    def pr_fields(self, fields, m, in_obj_module, structs):
+        """comma separated field values; a field whose type is another struct of the object module
+        (the inherited part) is flattened"""
+        parts = []
+        first = [True]
+
+        def walk(fields, m):
+            for f, ty in fields:
+                if in_obj_module and ty in structs:
+                    walk(structs[ty], "%s.%s" % (m, f))
+                    continue
+                code = self.pr(ty, "%s.%s" % (m, f), in_obj_module)
+                if code is None:
+                    code = "o.push('?');"     # a field type this table does not know
+                if not first[0]:
+                    parts.append("o.push(',');")
+                first[0] = False
+                parts.append(code)
+        walk(fields, m)
         return " ".join(parts)
 
-    # expression of type Option<rust type of t> built from `&V` expression v
-    def bd(self, t, v, kpath):
-        k = t[0]
-        if k in ("int32", "flags", "intstr"):
+    # ---- by Rust type: build a value of the type from `&V` expression v ------------------------
+    def bd(self, ty, v, kpath):
+        ty = ty.strip()
+        if ty == "i32":
             return "%s.i32_()?" % v
-        if k == "tick":
-            return "%s::snap_obj::Tick(%s.i32_()?)" % (kpath, v)
-        if k == "tune":
-            return "%s::msg::game::TuneParam(%s.i32_()?)" % (kpath, v)
-        if k == "enum":
-            return "%s::enums::%s::from_i32(%s.i32_()?).ok()?" % (kpath, title(t[1]), v)
-        if k == "boolean":
-            return "%s.bool_()?" % v
-        if k in ("string", "data", "rest"):
-            return "%s.bytes_()?" % v
-        if k == "raw":
-            if t[2] == "sha256":
-                return "libtw2_common::digest::Sha256::from_slice(%s.bytes_()?).ok()?" % v
-            return "uuid::Uuid::from_slice(%s.bytes_()?).ok()?" % v
-        if k == "be16":
+        if ty == "u16":
             return "u16::try_from(%s.int_()?).ok()?" % v
-        if k == "u8":
+        if ty == "u8":
             return "u8::try_from(%s.int_()?).ok()?" % v
-        if k == "addrs":
+        if ty == "bool":
+            return "%s.bool_()?" % v
+        if re.fullmatch(r"&'a \[u8\]", ty):
+            return "%s.bytes_()?" % v
+        if re.fullmatch(r"&'a \[AddrPacked\]", ty):
             return "addrs_(%s.bytes_()?)?" % v
-        if k == "clients":
+        if re.fullmatch(r"ClientsData<'a>", ty):
             return "%s::msg::ClientsData::from_bytes(%s.bytes_()?)" % (kpath, v)
-        if k == "twstr":
-            l = self.fresh("l")
-            return "{ let %s = %s.list_(%d)?; [%s] }" % (l, v, t[1], ", ".join("%s[%d].i32_()?" % (l, i) for i in range(t[1])))
-        if k == "opt":
+        if ty in ("Uuid", "uuid::Uuid"):
+            return "uuid::Uuid::from_slice(%s.bytes_()?).ok()?" % v
+        if ty == "Sha256":
+            return "libtw2_common::digest::Sha256::from_slice(%s.bytes_()?).ok()?" % v
+        if ty in ("crate::snap_obj::Tick", "Tick"):
+            return "%s::snap_obj::Tick(%s.i32_()?)" % (kpath, v)
+        if ty == "TuneParam":
+            return "%s::msg::game::TuneParam(%s.i32_()?)" % (kpath, v)
+        m = re.fullmatch(r"enums::(\w+)", ty)
+        if m:
+            return "%s::enums::%s::from_i32(%s.i32_()?).ok()?" % (kpath, m.group(1), v)
+        m = re.fullmatch(r"Option<(.+)>", ty)
+        if m:
             w = self.fresh("w")
-            return "match %s.opt_()? { None => None, Some(%s) => Some(%s) }" % (v, w, self.bd(t[1], w, kpath))
-        if k == "arr":
+            inner = self.bd(m.group(1), w, kpath)
+            if inner is None:
+                return None
+            return "match %s.opt_()? { None => None, Some(%s) => Some(%s) }" % (v, w, inner)
+        m = re.fullmatch(r"\[(.+); (\d+)\]", ty)
+        if m:
+            n = int(m.group(2))
             l = self.fresh("l")
-            return "{ let %s = %s.list_(%d)?; [%s] }" % (l, v, t[1], ", ".join(self.bd(t[2], "(&%s[%d])" % (l, i), kpath) for i in range(t[1])))
-        if k == "obj":
+            items = [self.bd(m.group(1), "(&%s[%d])" % (l, i), kpath) for i in range(n)]
+            if any(x is None for x in items):
+                return None
+            return "{ let %s = %s.list_(%d)?; [%s] }" % (l, v, n, ", ".join(items))
+        m = re.fullmatch(r"crate::snap_obj::(\w+)", ty)
+        if m and m.group(1) in self.objs:
             l = self.fresh("l")
-            fs = ", ".join("%s: %s" % (f, self.bd(x, "(&%s[%d])" % (l, i), kpath)) for i, (f, x) in enumerate(t[2]))
-            return "{ let %s = %s.list_(%d)?; %s::snap_obj::%s { %s } }" % (l, v, len(t[2]), kpath, title(t[1]), fs)
-        raise AssertionError(k)
+            counter = [0]
+            lit = self.bd_struct(m.group(1), self.objs, "%s::snap_obj" % kpath, l, counter, kpath, True)
+            if lit is None:
+                return None
+            return "{ let %s = %s.list_(%d)?; %s }" % (l, v, counter[0], lit)
+        return None
+
+    def bd_struct(self, name, structs, path, l, counter, kpath, in_obj_module):
+        """struct literal `path::name { .. }` taking its scalar fields from l[counter..]"""
+        parts = []
+        for f, ty in structs[name]:
+            if in_obj_module and ty in structs:
+                sub = self.bd_struct(ty, structs, path, l, counter, kpath, in_obj_module)
+                if sub is None:
+                    return None
+                parts.append("%s: %s" % (f, sub))
+                continue
+            e = self.bd(ty, "(&%s[%d])" % (l, counter[0]), kpath)
+            if e is None:
+                return None
+            counter[0] += 1
+            parts.append("%s: %s" % (f, e))
+        if parts:
+            return "%s::%s { %s }" % (path, name, ", ".join(parts))
+        return "%s::%s" % (path, name)
 
     # static description data
     def desc(self, t):
@@ -471,58 +581,84 @@ def has_bool(t):
     return t[0] == "boolean" or (t[0] in ("arr",) and has_bool(t[2])) or (t[0] == "opt" and has_bool(t[1]))
 
 
-def rust_proto(pid, crate, ctx):
+def rust_proto(repo, pid, cdir, crate, ctx):
     j = ctx.j
-    g = RustGen()
     k = "k"
+    dgen = RustGen({}, {}, "")
+    rel_obj = "gamenet/%s/src/snap_obj.rs" % cdir
+    obj_src = exlib.strip_rust_comments(exlib.read(repo, rel_obj))
+    obj_structs = parse_structs(obj_src)
+    snap_structs = parse_structs(exlib.strip_rust_comments(exlib.read(repo, "gamenet/snap/src/lib.rs")))
     s = "pub mod %s {\n" % pid
     s += "    #![allow(unused_variables, unused_imports, unused_parens, unreachable_patterns, clippy::all)]\n"
     s += "    use super::super::*;\n    use %s as k;\n" % crate
     s += "    use libtw2_gamenet_common::msg::AddrPackedSliceExt;\n    use std::convert::TryFrom;\n\n"
-    descs = {}
     for sec, enum, modname, key in (("system_messages", "System", "system", "SYSTEM"), ("game_messages", "Game", "game", "GAME"), ("connless_messages", "Connless", "connless", "CONNLESS")):
+        rel = "gamenet/%s/src/msg/%s.rs" % (cdir, modname)
+        src = exlib.strip_rust_comments(exlib.read(repo, rel))
+        structs = parse_structs(src)
+        for n in re.findall(r"pub use libtw2_gamenet_snap::(\w+);", src):
+            if n in snap_structs:
+                structs[n] = snap_structs[n]
+        variants = parse_enum(src, enum, rel)
+        g = RustGen(structs, obj_structs, "k::msg::%s" % modname)
+        by_norm = {norm(snake(m["name"])): snake(m["name"]) for m in j[sec]}
+        vmap = {norm(v): (v, st) for v, st in variants}
         arms, barms, dl = [], [], []
+        for v, st in variants:
+            name = by_norm.get(norm(v), v.lower())
+            if st not in structs:
+                arms.append("            k::msg::%s::%s(m) => { o.push_str(\"[?]\"); \"%s\" }" % (enum, v, name))
+                continue
+            arms.append("            k::msg::%s::%s(m) => { o.push('['); %s o.push(']'); \"%s\" }" % (enum, v, g.pr_fields(structs[st], "m", False, structs), name))
         for m in j[sec]:
             ms = ctx.members(m, "%s %s %s" % (pid, modname, snake(m["name"])))
             name = snake(m["name"])
-            arms.append("            k::msg::%s::%s(m) => { %s \"%s\" }" % (enum, title(m["name"]), g.pr_fields([("." + f, t) for f, t in ms], "m"), name))
-            l = g.fresh("l")
-            if ms:
-                lit = "k::msg::%s::%s { %s }" % (modname, title(m["name"]), ", ".join("%s: %s" % (f, g.bd(t, "(&%s[%d])" % (l, i), k)) for i, (f, t) in enumerate(ms)))
-            else:
-                lit = "k::msg::%s::%s" % (modname, title(m["name"]))
-            barms.append("            \"%s\" => { let %s = v.list_(%d)?; let m = k::msg::%s::%s(%s); Some(enc_bytes(|p| m.encode(p))) }" % (name, l, len(ms), enum, title(m["name"]), lit))
             ident = "Id::Conn([%s])" % ", ".join(str(x) for x in m["id"]) if sec == "connless_messages" else rust_ident(m["id"])
-            dl.append("        D { name: \"%s\", id: %s, members: &[%s] }," % (name, ident, ", ".join(g.desc(t) for _, t in ms)))
+            dl.append("        D { name: \"%s\", id: %s, members: &[%s] }," % (name, ident, ", ".join(dgen.desc(t) for _, t in ms)))
+            if norm(name) not in vmap or vmap[norm(name)][1] not in structs:
+                continue
+            v, st = vmap[norm(name)]
+            l = g.fresh("l")
+            counter = [0]
+            lit = g.bd_struct(st, structs, "k::msg::%s" % modname, l, counter, k, False)
+            if lit is None:
+                continue
+            barms.append("            \"%s\" => { let %s = v.list_(%d)?; let m = k::msg::%s::%s(%s); Some(enc_bytes(|p| m.encode(p))) }" % (name, l, counter[0], enum, v, lit))
         s += "    pub fn print_%s(m: &k::msg::%s, o: &mut String) -> &'static str {\n        match m {\n%s\n        }\n    }\n" % (modname, enum, "\n".join(arms))
+        s += "    #[cfg(feature = \"gamenet_typed\")]\n"
         s += "    pub fn build_%s(name: &str, v: &V) -> Option<String> {\n        match name {\n%s\n            _ => None,\n        }\n    }\n" % (modname, "\n".join(barms))
+        s += "    #[cfg(not(feature = \"gamenet_typed\"))]\n    pub fn build_%s(_name: &str, _v: &V) -> Option<String> {\n        None\n    }\n" % modname
         s += "    pub static %s: &[D] = &[\n%s\n    ];\n\n" % (key, "\n".join(dl))
+    variants = parse_enum(obj_src, "SnapObj", rel_obj)
+    g = RustGen(obj_structs, obj_structs, "k::snap_obj")
+    by_norm = {norm(snake(o["name"])): snake(o["name"]) for o in j["snapshot_objects"]}
+    vmap = {norm(v): (v, st) for v, st in variants}
     arms, barms, dl = [], [], []
+    for v, st in variants:
+        name = by_norm.get(norm(v), v.lower())
+        if st not in obj_structs:
+            arms.append("            k::SnapObj::%s(m) => { o.push_str(\"[?]\"); \"%s\" }" % (v, name))
+            continue
+        arms.append("            k::SnapObj::%s(m) => { o.push('['); %s o.push(']'); \"%s\" }" % (v, g.pr_fields(obj_structs[st], "m", True, obj_structs), name))
     for o in j["snapshot_objects"]:
         ms = ctx.obj_members(o)
         name = snake(o["name"])
-        arms.append("            k::SnapObj::%s(m) => { %s \"%s\" }" % (title(o["name"]), g.pr_fields(ms, "m"), name))
-        # struct literal with nested super structs
-        counter = [0]
+        dl.append("        D { name: \"%s\", id: %s, members: &[%s] }," % (name, rust_ident(o["id"]), ", ".join(dgen.desc(t) for _, t in ms)))
+        if norm(name) not in vmap or vmap[norm(name)][1] not in obj_structs:
+            continue
+        v, st = vmap[norm(name)]
         l = g.fresh("l")
-
-        def lit(obj):
-            parts = []
-            if "super" in obj:
-                sup = tuple(obj["super"])
-                parts.append("%s: %s" % (snake(sup), lit(ctx.objs[sup])))
-            for f, t in ctx.members(obj, "%s obj %s" % (pid, snake(obj["name"]))):
-                parts.append("%s: %s" % (f, g.bd(t, "(&%s[%d])" % (l, counter[0]), k)))
-                counter[0] += 1
-            if parts:
-                return "k::snap_obj::%s { %s }" % (title(obj["name"]), ", ".join(parts))
-            return "k::snap_obj::%s" % title(obj["name"])
-        body = lit(o)
+        counter = [0]
+        lit = g.bd_struct(st, obj_structs, "k::snap_obj", l, counter, k, True)
+        if lit is None:
+            continue
         barms.append("            \"%s\" => { let %s = v.list_(%d)?; let m = k::SnapObj::%s(%s); Some(enc_ints(|| m.encode().to_vec(), %s)) }" % (
-            name, l, len(ms), title(o["name"]), body, "true" if any(has_bool(t) for _, t in ms) else "false"))
-        dl.append("        D { name: \"%s\", id: %s, members: &[%s] }," % (name, rust_ident(o["id"]), ", ".join(g.desc(t) for _, t in ms)))
+            name, l, counter[0], v, lit, "true" if any(has_bool(t) for _, t in ms) else "false"))
     s += "    pub fn print_obj(m: &k::SnapObj, o: &mut String) -> &'static str {\n        match m {\n%s\n        }\n    }\n" % "\n".join(arms)
+    s += "    #[cfg(feature = \"gamenet_typed\")]\n"
     s += "    pub fn build_obj(name: &str, v: &V) -> Option<String> {\n        match name {\n%s\n            _ => None,\n        }\n    }\n" % "\n".join(barms)
+    s += "    #[cfg(not(feature = \"gamenet_typed\"))]\n    pub fn build_obj(_name: &str, _v: &V) -> Option<String> {\n        None\n    }\n"
     s += "    pub static OBJECTS: &[D] = &[\n%s\n    ];\n" % "\n".join(dl)
     s += "}\n\n"
     return s
@@ -530,9 +666,11 @@ def rust_proto(pid, crate, ctx):
 
 def run(repo):
     files = {}
-    rust = "// GENERATED by tools/extract.d/gamenet.py from gamenet/generate/spec/*.json on every check run — do not edit\n"
+    rust = "// GENERATED by tools/extract.d/gamenet.py on every check run — do not edit\n"
     rust += "// Dispatch over every message / object type of the four generated protocol crates (value printing,\n"
-    rust += "// construction from values) and the descriptions as static data for the request generator.\n\n"
+    rust += "// construction from values): generated from the Rust struct / enum definitions of the crates, with\n"
+    rust += "// the field types they really have.  The descriptions (gamenet/generate/spec/*.json) as static data\n"
+    rust += "// for the request generator.\n\n"
     for pid, jname, cdir, crate in PROTOS:
         rel = "gamenet/generate/spec/" + jname
         try:
@@ -550,7 +688,7 @@ def run(repo):
             "connless": rust_dispatch(repo, cdir, "msg/connless.rs", "decode_connless", connless=True),
         }
         files["Spec_%s.lean" % pid] = lean_file(pid, jname, ctx, obj_sizes(repo, cdir), dispatch)
-        rust += rust_proto(pid, crate, ctx)
+        rust += rust_proto(repo, pid, cdir, crate, ctx)
     # gamenet/common/src/msg.rs: the integer literals of the id codec, in source order
     rel = "gamenet/common/src/msg.rs"
     src = exlib.strip_rust_comments(exlib.read(repo, rel))
